@@ -384,7 +384,14 @@ func (rm *RequestManager) validateRequest(requestID graphsync.RequestID, p peer.
 	if err != nil {
 		return gsmsg.GraphSyncRequest{}, hooks.RequestResult{}, nil, err
 	}
-	_, err = ipld.Encode(selectorSpec, dagcbor.Encode)
+	encodedSelector, err := ipld.Encode(selectorSpec, dagcbor.Encode)
+	if err != nil {
+		return gsmsg.GraphSyncRequest{}, hooks.RequestResult{}, nil, err
+	}
+	// the responder traverses with the selector as it decodes from the wire, where dag-cbor
+	// has put map keys in canonical order -- traverse locally with that same form, so both
+	// sides visit the entries of an explore-fields clause in the same order
+	selectorSpec, err = ipld.Decode(encodedSelector, dagcbor.Decode)
 	if err != nil {
 		return gsmsg.GraphSyncRequest{}, hooks.RequestResult{}, nil, err
 	}
